@@ -234,6 +234,8 @@ static void get_stats(Buf &b, RunStats &st)
     for (int i = 0; i < simfs::F_NKINDS; i++)
         st.faults[i] = b.g64();
 }
+static void add_stats(RunStats &a, const RunStats &o);
+void        accumulate(RunStats &into, const RunStats &from) { add_stats(into, from); }
 static void add_stats(RunStats &a, const RunStats &o)
 {
     for (auto &kv : o.probes)
@@ -467,7 +469,7 @@ Plan minimise(Profile *prof, const Plan &plan0, const Violation &v, Exec &ex, in
 {
     Plan best   = plan0;
     int  evals  = 0;
-    int  budget = 700;
+    int  budget = prof->minimise_budget();
     Outcome first = prof->judge(best, ex);
     evals++;
     int status = first.status;
@@ -484,15 +486,31 @@ Plan minimise(Profile *prof, const Plan &plan0, const Violation &v, Exec &ex, in
         return same_failure(o, status, v);
     };
     // faults refer to op indices: removing ops must renumber them
+    // drop the removable ops in [from,to); structural ops and ops that carry a fault stay
     auto without_ops = [&](const Plan &p, size_t from, size_t to, Plan &q) {
+        std::vector<int> newidx(p.ops.size(), -1);
         q = p;
-        q.ops.erase(q.ops.begin() + (long)from, q.ops.begin() + (long)to);
+        q.ops.clear();
         q.faults.clear();
+        size_t dropped = 0;
+        for (size_t i = 0; i < p.ops.size(); i++) {
+            bool drop = i >= from && i < to && prof->removable(p, i);
+            if (drop)
+                for (auto &f : p.faults)
+                    if ((size_t)f.op == i)
+                        drop = false;
+            if (drop) {
+                dropped++;
+                continue;
+            }
+            newidx[i] = (int)q.ops.size();
+            q.ops.push_back(p.ops[i]);
+        }
+        if (!dropped)
+            return false;
         for (auto f : p.faults) {
-            if ((size_t)f.op >= from && (size_t)f.op < to)
-                return false; // would drop the op a fault is attached to
-            if ((size_t)f.op >= to)
-                f.op -= (int)(to - from);
+            if (f.op >= 0 && (size_t)f.op < newidx.size() && newidx[(size_t)f.op] >= 0)
+                f.op = newidx[(size_t)f.op];
             q.faults.push_back(f);
         }
         return true;
@@ -535,7 +553,7 @@ Plan minimise(Profile *prof, const Plan &plan0, const Violation &v, Exec &ex, in
         }
     }
     // faults
-    for (size_t i = best.faults.size(); i-- > 0 && evals < budget;) {
+    for (size_t i = best.faults.size(); prof->faults_removable() && i-- > 0 && evals < budget;) {
         Plan q = best;
         q.faults.erase(q.faults.begin() + (long)i);
         if (test(q))
@@ -641,7 +659,7 @@ struct Agg {
     RunStats                     st;
     uint64_t                     status_counts[ST_ENGINE + 1] = {0};
     std::vector<Found>           found;
-    std::map<std::string, uint64_t> known_hits;
+    std::map<std::string, uint64_t> known_hits, viol_keys;
     std::vector<std::string>     samples;
 };
 
@@ -681,6 +699,11 @@ static void put_agg(Buf &b, const Agg &a)
     b.u64(a.samples.size());
     for (auto &s : a.samples)
         b.str(s);
+    b.u64(a.viol_keys.size());
+    for (auto &kv : a.viol_keys) {
+        b.str(kv.first);
+        b.u64(kv.second);
+    }
 }
 static void merge_agg(Buf &b, Agg &a)
 {
@@ -724,6 +747,11 @@ static void merge_agg(Buf &b, Agg &a)
         std::string s = b.gstr();
         if (a.samples.size() < 3)
             a.samples.push_back(s);
+    }
+    n = b.g64();
+    for (uint64_t i = 0; i < n && b.ok(); i++) {
+        std::string k = b.gstr();
+        a.viol_keys[k] += b.g64();
     }
 }
 
@@ -792,16 +820,17 @@ static void worker_loop(Profile *prof, const DriverOpts &o, bool thorough, uint6
         }
         else if (out.status == ST_ENGINE) {
             Found f;
-            f.plan_text = plan.to_text();
+            f.plan_text = out.plan_text.empty() ? plan.to_text() : out.plan_text;
             f.v         = out.v;
             f.status    = out.status;
             f.run       = r;
             a.found.push_back(f);
         }
         else {
+            a.viol_keys[out.v.key]++;
             if (known_keys.count(out.v.key))
                 a.known_hits[out.v.key]++;
-            else if (a.found.size() < 12) {
+            else if (a.found.size() < 40) {
                 // keep at most 3 per key
                 int same = 0;
                 for (auto &f : a.found)
@@ -809,7 +838,7 @@ static void worker_loop(Profile *prof, const DriverOpts &o, bool thorough, uint6
                         same++;
                 if (same < 3) {
                     Found f;
-                    f.plan_text = plan.to_text();
+                    f.plan_text = out.plan_text.empty() ? plan.to_text() : out.plan_text;
                     f.v         = out.v;
                     f.status    = out.status;
                     f.run       = r;
@@ -1112,7 +1141,8 @@ int driver_main(const DriverOpts &o)
             engine_error = true;
             continue;
         }
-        if (seen_keys.count(f.v.key) || reported >= 4)
+        static const int max_report = getenv("H4SIM_MAX_REPORT") ? atoi(getenv("H4SIM_MAX_REPORT")) : 4;
+        if (seen_keys.count(f.v.key) || reported >= max_report)
             continue;
         Plan plan;
         Plan::from_text(f.plan_text, plan);
@@ -1193,6 +1223,8 @@ int driver_main(const DriverOpts &o)
         printf("h4sim: wall cap reached: %llu planned cases not run\n", (unsigned long long)agg.truncated);
     for (auto &kv : agg.known_hits)
         printf("h4sim: %llu cases hit known finding key=%s\n", (unsigned long long)kv.second, kv.first.c_str());
+    for (auto &kv : agg.viol_keys)
+        printf("h4sim: %llu cases failed with key=%s\n", (unsigned long long)kv.second, kv.first.c_str());
     if (o.verbose) {
         for (auto &kv : agg.st.probes)
             printf("  probe %-40s %llu\n", kv.first.c_str(), (unsigned long long)kv.second);
